@@ -91,7 +91,7 @@ impl Kf {
     }
     /// A failure (property, op, outcome) observed on a case carrying `tags`: the listed finding it is, if any.
     pub fn matches(&self, property: &str, op: &str, outcome: &str, tags: &BTreeSet<String>) -> Option<&Finding> {
-        self.findings.iter().find(|f| f.property == property && (f.op == "*" || f.op == op) && outcome.starts_with(&f.outcome) && f.trigger.iter().all(|t| tags.contains(t)))
+        self.findings.iter().find(|f| f.property == property && (f.op == "*" || f.op == op) && (if let Some(sub) = f.outcome.strip_prefix('~') { outcome.contains(sub) } else { outcome.starts_with(&f.outcome) }) && f.trigger.iter().all(|t| tags.contains(t)))
     }
     pub fn for_property(&self, property: &str) -> Vec<&Finding> {
         self.findings.iter().filter(|f| f.property == property).collect()
